@@ -316,12 +316,157 @@ def check_stateless(ctx: Ctx):
         ctx.ok("R05.5", None, base.node, "approximator:stateless", "no approximator method other than __init__ writes instance attributes", None, nontrivial=False)
 
 
+def check_semantic_dtype(ctx: Ctx):
+    """R05.6: before labelling, the semantic arrays are cast to the dtype fitted to a value that
+    is at least every label of BOTH arrays (otherwise labels wrap - possibly to background -
+    before the connected-component analysis), and the quantity tested for negativity is at most
+    every label of both arrays.  approximate_instances is run on symbolic label chains
+    P1<..<P3 and R1<R2 (no order between the chains: max/min split into cases)."""
+    from ..linarith import constraint_slack, prove_nonneg
+    from .labelrun import LV, RelabelInterp, chains
+
+    prog = ctx.prog
+    f = prog.func("instance_approximator:InstanceApproximator.approximate_instances")
+    fit = prog.func("utils.numpy_utils:_get_smallest_fitting_uint")
+    spcls = prog.cls("utils.processing_pair:SemanticPair")
+    acls = prog.cls("instance_approximator:ConnectedComponentsInstanceApproximator")
+    inner = acls.lookup("_approximate_instances")
+    n = 0
+    for n_p, n_r in ((3, 2), (0, 2), (3, 0), (1, 2), (3, 1), (1, 1)):
+        pe, re_ = n_p == 0, n_r == 0
+        refs, preds = chains(max(n_r, 1), max(n_p, 1))
+        holder = []
+
+        class SemInterp(RelabelInterp):
+            def _minmax(self, which, items, node):
+                lvs = [self.lv(x) for x in items]
+                if not lvs or any(x is None for x in lvs):
+                    return Unknown(which + " of non-labels")
+                if which == "max":
+                    return self.sym_max(items, node)
+                # minimum: the element that every other one dominates
+                uniq = []
+                for e in lvs:
+                    if e not in uniq:
+                        uniq.append(e)
+                for i, e in enumerate(uniq):
+                    if i == len(uniq) - 1:
+                        return LV(e.poly, e.cont, e.kind)
+                    ok = True
+                    for o in uniq:
+                        if o is e:
+                            continue
+                        c = self._cmp("<=", e.poly, o.poly, node)
+                        if not (c is True or (not isinstance(c, bool) and self.decide(node, c))):
+                            ok = False
+                            break
+                    if ok:
+                        return LV(e.poly, e.cont, e.kind)
+                return Unknown("min not determined")
+
+            def call_builtin(self, name, args, kwargs, node):
+                if name in ("min", "max") and args:
+                    items = list(args[0]) if len(args) == 1 and isinstance(args[0], (list, tuple)) else list(args)
+                    if items and all(self.lv(x) is not None for x in items):
+                        return self._minmax(name, items, node)
+                return super().call_builtin(name, args, kwargs, node)
+
+            def external_call(self, name, args, kwargs, node):
+                r = self.root
+                if name in ("numpy.min", "numpy.max", "numpy.amin", "numpy.amax") and args and not kwargs:
+                    a = args[0]
+                    items = list(a) if isinstance(a, (list, tuple)) else [a]
+                    if items and all(self.lv(x) is not None for x in items):
+                        return self._minmax("max" if name.endswith("max") else "min", items, node)
+                if self.prog.is_anchor(name, "utils.numpy_utils:_get_smallest_fitting_uint"):
+                    r.fit_args.append((args[0] if args else None, node))
+                    return Sym(f"FITDTYPE#{len(r.fit_args) - 1}")
+                if name.split(".")[-1] == "set_dtype":
+                    r.set_dtype.append((args[0] if args else kwargs.get("type"), node))
+                    return None
+                if inner is not None and name == inner.qual:
+                    return Sym("INSTANCE_PAIR")
+                return super().external_call(name, args, kwargs, node)
+
+            def exec_stmt(self, st):
+                if isinstance(st, ast.Assert) and isinstance(st.test, ast.Compare) and len(st.test.ops) == 1:
+                    l, r_ = st.test.left, st.test.comparators[0]
+                    if isinstance(st.test.ops[0], ast.GtE) and isinstance(r_, ast.Constant) and r_.value == 0:
+                        self.root.nonneg_tested.append((self.eval(l), st))
+                    elif isinstance(st.test.ops[0], ast.LtE) and isinstance(l, ast.Constant) and l.value == 0:
+                        self.root.nonneg_tested.append((self.eval(r_), st))
+                return super().exec_stmt(st)
+
+        def make(prefix, pe=pe, re_=re_, refs=refs, preds=preds):
+            pair = Obj(spcls, {"_pred_labels": () if pe else tuple(LV(p, "i64", "nps") for p in preds), "_ref_labels": () if re_ else tuple(LV(r, "i64", "nps") for r in refs), "_prediction_arr": Sym("PRED_ARR"), "_reference_arr": Sym("REF_ARR"), "n_dim": 3})
+            args = {}
+            for p in f.call_params:
+                if "pair" in p.name.lower():
+                    args[p.name] = pair
+            it = SemInterp(prog, f, {**args, f.self_name: Obj(acls, {"cca_backend": None})}, prefix=prefix)
+            it.root.fit_args, it.root.set_dtype, it.root.nonneg_tested = [], [], []
+            ni = {fit.qual}
+            sd = spcls.lookup("set_dtype")
+            if sd is not None:
+                ni.add(sd.qual)
+            if inner is not None:
+                ni.add(inner.qual)
+            it.root.no_inline = ni
+            holder.append(it)
+            return it
+
+        try:
+            outs = enumerate_paths(make, max_paths=64)
+        except Undecided as e:
+            ctx.undecided("R05.6", f, f.node, f"{f.qual}:n_pred_labels={n_p},n_ref_labels={n_r}", f"not evaluable: {e}")
+            continue
+        for out, it in zip(outs, holder):
+            slacks = []
+            opaque = False
+            for node, v, d in out.decisions:
+                pv = getattr(v, "pv", None)
+                if pv and len(pv) == 3:
+                    slacks += constraint_slack(pv[0], pv[1], pv[2], d)
+                else:
+                    opaque = True
+            dtxt = "; ".join(f"{norm(nd) if isinstance(nd, ast.AST) else '?'}={d}" for nd, v, d in out.decisions)
+            construct = f"{f.qual}:n_pred_labels={n_p},n_ref_labels={n_r}" + (f"[{dtxt}]" if dtxt else "")
+            if out.kind == "raise" or opaque:
+                ctx.undecided("R05.6", f, out.node, construct, f"path not modelled: {out.kind} {out.exc or ''}")
+                continue
+            n += 1
+            tops = ([] if pe else [("prediction", preds[-1])]) + ([] if re_ else [("reference", refs[-1])])
+            lows = ([] if pe else [("prediction", preds[0])]) + ([] if re_ else [("reference", refs[0])])
+            sd = it.root.set_dtype
+            fa = it.root.fit_args
+            ok_call = len(sd) == 1 and isinstance(sd[0][0], Sym) and sd[0][0].name.startswith("FITDTYPE#")
+            if not ok_call:
+                ctx.decide("R05.6", f, out.node, construct + ":set-dtype", "the semantic pair is cast to the fitted dtype before labelling", False if not sd else None, {"set_dtype": repr(sd)[:120]})
+                continue
+            arg = fa[int(sd[0][0].name.split("#")[1])][0]
+            if not isinstance(arg, LV):
+                ctx.undecided("R05.6", f, sd[0][1], construct + ":fit-argument", f"fitted value not modelled: {arg!r}")
+                continue
+            bad = [side for side, top in tops if not prove_nonneg(arg.poly - top, slacks)]
+            ctx.decide("R05.6", f, fa[0][1], construct + ":fits-both", "the dtype set before labelling is fitted to a value >= every label of both arrays", not bad, {"fitted_to": repr(arg.poly), "smaller_than_max_label_of": bad})
+            for val, st in it.root.nonneg_tested:
+                if isinstance(val, LV):
+                    badl = [side for side, low in lows if not prove_nonneg(low - val.poly, slacks)]
+                    ctx.decide("R05.6", f, st, construct + ":negativity-test", "the value tested for negativity is <= every label of both arrays", not badl, {"tested": repr(val.poly), "larger_than_min_label_of": badl})
+    if n < 3:
+        ctx.undecided("R05.6.floor", f, f.node, "floor:R05.6", f"{n} evaluated paths, confirmed floor is 3")
+
+
 def check(ctx: Ctx):
     check_stateless(ctx)
     check_dispatch(ctx)
     check_library_calls(ctx)
     fitting_uint_table(ctx)
     check_negative_guard(ctx)
+    try:
+        check_semantic_dtype(ctx)
+    except (Undecided, AnchorMissing) as e:
+        ctx.undecided("R05.6", None, None, "R05.6:check_semantic_dtype", f"{type(e).__name__}: {e}")
 
 
 _A = "panoptica/instance_approximator.py"
@@ -329,6 +474,11 @@ _F = "panoptica/_functionals.py"
 _N = "panoptica/utils/numpy_utils.py"
 
 VARIANTS = [
+    Variant("C05-m-semantic-dtype-pred-min", "R05.6", "mutant", [(_A, "max_value = max(np.max(pred_label_range[1]), np.max(ref_label_range[1]))", "max_value = max(np.max(pred_label_range[0]), np.max(ref_label_range[1]))")], control=True),
+    Variant("C05-m-semantic-dtype-single-label", "R05.6", "mutant", [(_A, "            if len(pred_labels) > 0\n", "            if len(pred_labels) > 1\n")]),
+    Variant("C05-m-semantic-dtype-ref-only", "R05.6", "mutant", [(_A, "max_value = max(np.max(pred_label_range[1]), np.max(ref_label_range[1]))", "max_value = np.max(ref_label_range[1])")]),
+    Variant("C05-m-negativity-of-max", "R05.6", "mutant", [(_A, "min_value = min(np.min(pred_label_range[0]), np.min(ref_label_range[0]))", "min_value = min(np.min(pred_label_range[1]), np.min(ref_label_range[0]))")]),
+    Variant("C05-t-semantic-dtype-direct", "R05.6", "twin", [(_A, "max_value = max(np.max(pred_label_range[1]), np.max(ref_label_range[1]))", "max_value = max(pred_label_range[1], ref_label_range[1])")]),
     Variant("C05-m-ge3-gt3", "R05.1", "mutant", [(_A, "CCABackend.cc3d if semantic_pair.n_dim >= 3 else CCABackend.scipy", "CCABackend.cc3d if semantic_pair.n_dim > 3 else CCABackend.scipy")], control=True),
     Variant("C05-m-default-swapped", "R05.1", "mutant", [(_A, "CCABackend.cc3d if semantic_pair.n_dim >= 3 else CCABackend.scipy", "CCABackend.scipy if semantic_pair.n_dim >= 3 else CCABackend.cc3d")]),
     Variant("C05-m-ref-other-backend", "R05.1", "mutant", [(_A, "            _connected_components(semantic_pair._reference_arr, cca_backend)", "            _connected_components(semantic_pair._reference_arr, CCABackend.scipy)")]),
